@@ -109,10 +109,52 @@ def eval_case(case):
         out.extend(_equal_doc(case, pt))
     elif case['k'] == 'plugin_out':
         out.extend(_plugin_out(case, pt))
+    elif case['k'] == 'callout_desc':
+        out.extend(_callout_desc(case, pt))
     return out
 
 
-PLUGIN_TABLE = {'srcparsers.bsrc.bsrc': 'by-payload', 'udparsers.b0100.b0100': 'by-payload'}
+PLUGIN_TABLE = {'srcparsers.bsrc.bsrc': 'by-payload', 'udparsers.b0100.b0100': 'by-payload',
+                'calloutparsers.bcallouts.bcallouts': 'by-payload', 'calloutparsers.xcallouts.xcallouts': 'nan',
+                'calloutparsers.kcallouts.kcallouts': 'deep'}
+
+
+def _callout_desc(case, pt):
+    """Procedure descriptions from callout parser plug-ins of several creators, the same procedure name described printably
+    by one and unprintably (NaN / nesting too deep) by another, in either order, within one run."""
+    if not imphook.STATE['installed'] or imphook.BEHAVIOUR != PLUGIN_TABLE:
+        imphook.install(serve_all=False, behaviour=PLUGIN_TABLE)
+        imphook.forget_modules()
+    out = []
+    bad = lambda what, detail: out.append({'key': 'C06:' + what, 'what': '%s: %s' % (what, detail), 'case': case})
+    with tempfile.TemporaryDirectory(prefix='c06c_', dir=clidrv.odd_root()) as d:
+        os.mkdir(os.path.join(d, 'in'))
+        os.mkdir(os.path.join(d, 'out'))
+        for i, cr in enumerate(case['creators']):
+            spec = {'creator': cr, 'eid': 0x50000E00 + i, 'plid': 0x50000E00 + i, 'sections': [
+                {'t': 'PS', 'ascii': 'B7001111'.ljust(32), 'callouts': [{'prio': 0x4D, 'loc': 'U1-P1', 'fru': {'flags': 0x42, 'pn': 'OKPROC1'}},
+                                                                        {'prio': 0x4C, 'loc': '', 'fru': {'flags': 0x42, 'pn': 'OKPROC2'}}]}]}
+            with open(os.path.join(d, 'in', 'c%d_%s' % (i, '%08X' % (0x50000E00 + i))), 'wb') as f:
+                f.write(pelgen.encode_pel(pelgen.pel_from_spec(spec)))
+        for argv in (['-p', os.path.join(d, 'in'), '-a'], ['-p', os.path.join(d, 'in'), '-a', '-r'], ['-p', os.path.join(d, 'in'), '-l']):
+            imphook.forget_modules()
+            r = clidrv.run_main(argv)
+            if r.exc:
+                bad('plugin-output-exception', '%s: %s' % (argv[2:], r.exc))
+            elif r.stdout.strip():
+                try:
+                    strictjson.loads(r.stdout)
+                except Exception as e:
+                    bad('plugin-output-not-json', '%s over logs of creators %s prints text that is not JSON (%s)' % (' '.join(argv[2:]), case['creators'], e))
+        imphook.forget_modules()
+        clidrv.run_main(['-p', os.path.join(d, 'in'), '-j', '-o', os.path.join(d, 'out')])
+        for fn in sorted(os.listdir(os.path.join(d, 'out'))):
+            with open(os.path.join(d, 'out', fn), encoding='utf-8', errors='surrogateescape') as f:
+                try:
+                    strictjson.loads(f.read())
+                except Exception as e:
+                    bad('plugin-output-not-json', '-j over logs of creators %s wrote a file that is not JSON (%s)' % (case['creators'], e))
+    return out
 
 
 def _plugin_out(case, pt):
@@ -514,6 +556,9 @@ def run_chunk(chunk):
                     if a is None and b is None:
                         continue
                     _do(res, {'k': 'plugin_out', 'src': a, 'ud': b}, '"plugin', every=7)
+            for creators in itertools.permutations(['B', 'x', 'k', 'O'], 2):
+                _do(res, {'k': 'callout_desc', 'creators': list(creators)}, '"plugin', every=5)
+            _do(res, {'k': 'callout_desc', 'creators': ['B', 'x', 'B', 'k', 'B']}, '"plugin', every=5)
             # SRCs that declare fewer than nine valid words (the parser still gets eight hex words)
             for wc in (1, 2, 5, 8):
                 for a in (None, 0, 8):
